@@ -84,6 +84,13 @@ EXPRS += [
     ("expr", "src/lib.rs", "new_chunk", ("let", "footer_ptr", 1), "new_chunk_footer_at", ("data", "new_size_without_footer")),
     ("expr", "src/lib.rs", "new_chunk", ("let", "ptr", 1), "new_chunk_finger", ("data", "new_size_without_footer")),
     ("expr", "src/lib.rs", "new_chunk", ("let", "allocated_bytes", 1), "new_chunk_allocated_bytes", ("new_size_without_footer",)),
+    # the capacity constructor: the two assertions, the zero test, the layout asked for, and that no
+    # size is "given" to new_chunk_memory_details (so the default chunk size is the floor)
+    ("expr", "src/lib.rs", "try_with_min_align_and_capacity", ("assert", 1), "ctor_align_is_pow2"),
+    ("expr", "src/lib.rs", "try_with_min_align_and_capacity", ("assert", 2), "ctor_align_small"),
+    ("expr", "src/lib.rs", "try_with_min_align_and_capacity", ("if", 1), "ctor_capacity_zero"),
+    ("expr", "src/lib.rs", "try_with_min_align_and_capacity", ("let", "layout", 1), "ctor_layout"),
+    ("expr", "src/lib.rs", "try_with_min_align_and_capacity", ("arg", "new_chunk_memory_details", 1, 0), "ctor_given_size"),
     # alloc_try_with / try_alloc_try_with: what is saved on entry, and on an Err from the initialiser
     # the two tests and the two rewind targets (the saved values are inputs at that point)
     ("expr", "src/lib.rs", "alloc_try_with", ("let", "rewind_footer", 1), "atw_saved_footer"),
@@ -153,6 +160,10 @@ FRAMES = [
      "ptr::write(footer_ptr,ChunkFooter{data,layout,prev:Cell::new(prev),ptr,allocated_bytes,},);Some(NonNull::new_unchecked(footer_ptr))"),
     ("src/lib.rs", "new_chunk", "new_chunk_asks_allocator", "letdata=alloc(layout);letdata=NonNull::new(data)?;"),
     ("src/lib.rs", "reset", "reset_empty_is_noop", "ifself.current_chunk_footer.get().as_ref().is_empty(){return;}"),
+    ("src/lib.rs", "try_with_min_align_and_capacity", "ctor_zero_takes_nothing",
+     "ifcapacity==0{returnOk(Bump{current_chunk_footer:Cell::new(EMPTY_CHUNK.get()),allocation_limit:Cell::new(None),});}"),
+    ("src/lib.rs", "try_with_min_align_and_capacity", "ctor_one_chunk_no_limit",
+     "letchunk_footer=unsafe{Self::new_chunk(Self::new_chunk_memory_details(None,layout).ok_or(AllocErr)?,layout,EMPTY_CHUNK.get(),).ok_or(AllocErr)?};Ok(Bump{current_chunk_footer:Cell::new(chunk_footer),allocation_limit:Cell::new(None),})"),
     # giving memory back: the chunk-list walk, what Drop and the sentinel test are
     ("src/lib.rs", "dealloc_chunk_list", "chunk_list_walk",
      "{while!footer.as_ref().is_empty(){letf=footer;footer=f.as_ref().prev.get();dealloc(f.as_ref().data.as_ptr(),f.as_ref().layout);}}"),
